@@ -151,6 +151,8 @@ def run(chk) -> None:
     _r11f(chk, repo)
     chk.rule("R11e", "encoding autodetection looks at the whole file: the bytes it judges come from an unbounded read() of the file named by its parameter")
     _r11e(chk, repo)
+    chk.rule("R11g", "the detector's verdict is replaced by a constant codec only when there is none: in get_encoding every `return <constant>` after the detector call is guarded by the falsity of the detected encoding and by nothing else (no confidence threshold, no allow-list) -- a file decoded with another codec than the one that fits has its untouched non-ASCII bytes rewritten by the lossy error handler")
+    _r11g(chk, repo)
 
 
 STRING_ENTRY = {"lint_string_wrapped": "string", "lint_string": "in_str", "parse_string": "in_str", "render_string": "in_str"}
@@ -193,6 +195,39 @@ def _r11f(chk, repo) -> None:
     chk.count("R11f.from_own_parameter", n_param)
     chk.count("R11f.from_raw_read", n_stdin)
     chk.floor("R11f.string_entry_calls", 8)
+
+
+def _r11g(chk, repo) -> None:
+    from ..idioms import branch_atoms, expanded
+
+    G = repo.fn("src/sqlfluff/core/helpers/file.py", "get_encoding")
+    cfg = cfg_of(G)
+    dets = [c for c in walk_local(G) if isinstance(c, ast.Call) and last_attr(c) == "detect"]
+    chk.count("R11g.detector_calls", len(dets))
+    if len(dets) != 1:
+        raise AnalysisError("R11g: get_encoding no longer holds exactly one detector call (<x>.detect(..)); re-confirm the anchor by hand")
+    dst = cfg.stmt_of(dets[0])
+
+    def is_verdict(e, at) -> bool:
+        t = norm(expanded(cfg, e, at))
+        return "detect(" in t and "encoding" in t
+
+    for r in [r for r in walk_local(G) if isinstance(r, ast.Return) and isinstance(r.value, ast.Constant) and isinstance(r.value.value, str)]:
+        if not cfg.dominates(dst, r):
+            continue
+        chk.count("R11g.constant_fallbacks")
+        guards = [g for g in cfg.guards(r) if g.stmt is dst or cfg.dominates(dst, g.stmt)]
+        ok = bool(guards)
+        for g in guards:
+            ats = branch_atoms(cfg, g)
+            ok = ok and bool(ats) and all(pol is False and is_verdict(e, g.stmt) for e, pol in ats)
+        chk.require(
+            ok, "R11g", r,
+            f"get_encoding answers the constant {r.value.value!r} after the detector ran under a condition other than 'the detector named no encoding' "
+            f"(`{short(guards[-1].stmt.test, 80) if guards and hasattr(guards[-1].stmt, 'test') else 'unguarded'}`): a file whose detected codec is discarded is decoded with one that does not fit, and the "
+            "error handler turns the bytes no fix touches into escape text when the file is written back",
+            detail="get_encoding: constant fallback only without a verdict",
+        )
 
 
 def _r11e(chk, repo) -> None:
@@ -650,6 +685,30 @@ def _is_render_result(repo, rm, g, cfg, e, p, at, kind, render_file_names) -> bo
 from ..selftest import Variant  # noqa: E402
 
 VARIANTS = [
+    Variant(
+        "r11g-low-confidence-verdict-discarded", "src/sqlfluff/core/helpers/file.py",
+        "    detected_encoding = chardet.detect(data).get(\"encoding\")\n    if not detected_encoding:\n",
+        "    detected = chardet.detect(data)\n    detected_encoding = detected.get(\"encoding\")\n    if not detected_encoding or detected.get(\"confidence\", 1.0) < 0.5:\n",
+        "R11g", "get_encoding", "seeded C11-9",
+    ),
+    Variant(
+        "r11g-verdict-allow-list", "src/sqlfluff/core/helpers/file.py",
+        "    if not detected_encoding:\n        return \"utf-8\"\n",
+        "    if not detected_encoding:\n        return \"utf-8\"\n    if detected_encoding.lower() not in (\"utf-8\", \"utf-16\", \"utf-32\"):\n        return \"utf-8\"\n",
+        "R11g", "get_encoding", "single-byte verdicts replaced by utf-8",
+    ),
+    Variant(
+        "quiet-r11g-verdict-through-locals", "src/sqlfluff/core/helpers/file.py",
+        "    detected_encoding = chardet.detect(data).get(\"encoding\")\n    if not detected_encoding:\n",
+        "    detected = chardet.detect(data)\n    detected_encoding = detected.get(\"encoding\")\n    no_verdict = not detected_encoding\n    if no_verdict:\n",
+        "QUIET", None, "R11g: verdict and test through locals",
+    ),
+    Variant(
+        "quiet-r11g-none-test", "src/sqlfluff/core/helpers/file.py",
+        "    if not detected_encoding:\n        return \"utf-8\"\n    return detected_encoding\n",
+        "    if detected_encoding:\n        return detected_encoding\n    return \"utf-8\"\n",
+        "QUIET", None, "R11g: arms swapped",
+    ),
     # behaviour-preserving refactors: must stay quiet
     Variant(
         "quiet-autodetect-chunked-read", "src/sqlfluff/core/helpers/file.py",
